@@ -162,6 +162,20 @@ func (f *Flat) inline(stack map[string]bool, depth int) {
 				if lit, ok := ast.Unparen(f.Alias[o]).(*ast.FuncLit); ok {
 					sig, _ := f.Pkg.TypesInfo.Types[lit].Type.(*types.Signature)
 					callee = &FuncInfo{Key: "lit@" + f.P.pos(lit), Pkg: f.Pkg, Lit: lit, LitSig: sig}
+				} else if a := f.Alias[o]; a != nil {
+					// ... or to a declared function of the package: readTxs(u, id, filter, filesFromTx)
+					var id *ast.Ident
+					switch x := ast.Unparen(a).(type) {
+					case *ast.Ident:
+						id = x
+					case *ast.SelectorExpr:
+						id = x.Sel
+					}
+					if id != nil {
+						if fn, ok := f.Pkg.TypesInfo.Uses[id].(*types.Func); ok {
+							callee = f.P.funcOfObj(fn)
+						}
+					}
 				}
 			}
 		}
